@@ -3,6 +3,7 @@
 package atomic
 
 import (
+	"reflect"
 	"unsafe"
 
 	"github.com/TeaEntityLab/fpGo/v2/zzverif/vsched"
@@ -100,10 +101,49 @@ func (a *Bool) Store(v bool)                  { StoreInt32(&a.v, b2i(v)) }
 func (a *Bool) Swap(v bool) bool              { return SwapInt32(&a.v, b2i(v)) != 0 }
 func (a *Bool) CompareAndSwap(o, n bool) bool { return CompareAndSwapInt32(&a.v, b2i(o), b2i(n)) }
 
+// Value mirrors sync/atomic.Value, including its panics: a nil value cannot be stored, and every value stored
+// must have the concrete type of the first one.
 type Value struct{ v interface{} }
 
-func (a *Value) Load() interface{}   { pt(a, "atomic.Load"); return a.v }
-func (a *Value) Store(v interface{}) { pt(a, "atomic.Store"); a.v = v }
+func (a *Value) check(op string, v interface{}) {
+	if v == nil {
+		panic("sync/atomic: " + op + " of nil value into Value")
+	}
+	if a.v != nil && reflect.TypeOf(a.v) != reflect.TypeOf(v) {
+		panic("sync/atomic: " + op + " of inconsistently typed value into Value")
+	}
+}
+
+func (a *Value) Load() interface{} { pt(a, "atomic.Load"); return a.v }
+func (a *Value) Store(v interface{}) {
+	pt(a, "atomic.Store")
+	a.check("store", v)
+	a.v = v
+}
+func (a *Value) Swap(v interface{}) interface{} {
+	pt(a, "atomic.Swap")
+	a.check("swap", v)
+	o := a.v
+	a.v = v
+	return o
+}
+func (a *Value) CompareAndSwap(o, n interface{}) bool {
+	pt(a, "atomic.CAS")
+	if n == nil {
+		panic("sync/atomic: compare and swap of nil value into Value")
+	}
+	if o != nil && reflect.TypeOf(o) != reflect.TypeOf(n) {
+		panic("sync/atomic: compare and swap of inconsistently typed values")
+	}
+	if a.v != nil && reflect.TypeOf(a.v) != reflect.TypeOf(n) {
+		panic("sync/atomic: compare and swap of inconsistently typed value into Value")
+	}
+	if a.v != o {
+		return false
+	}
+	a.v = n
+	return true
+}
 
 type Pointer[T any] struct{ p *T }
 
@@ -118,3 +158,34 @@ func (a *Pointer[T]) CompareAndSwap(o, n *T) bool {
 	}
 	return false
 }
+
+// the remaining sync/atomic surface: the Uintptr type, SwapUintptr and the And / Or operations (go 1.23)
+func SwapUintptr(p *uintptr, v uintptr) uintptr { pt(p, "atomic.Swap"); o := *p; *p = v; return o }
+
+type Uintptr struct{ v uintptr }
+
+func (a *Uintptr) Load() uintptr                    { return LoadUintptr(&a.v) }
+func (a *Uintptr) Store(v uintptr)                  { StoreUintptr(&a.v, v) }
+func (a *Uintptr) Add(d uintptr) uintptr            { return AddUintptr(&a.v, d) }
+func (a *Uintptr) Swap(v uintptr) uintptr           { return SwapUintptr(&a.v, v) }
+func (a *Uintptr) CompareAndSwap(o, n uintptr) bool { return CompareAndSwapUintptr(&a.v, o, n) }
+
+func AndInt32(p *int32, m int32) int32         { pt(p, "atomic.And"); o := *p; *p &= m; return o }
+func OrInt32(p *int32, m int32) int32          { pt(p, "atomic.Or"); o := *p; *p |= m; return o }
+func AndUint32(p *uint32, m uint32) uint32     { pt(p, "atomic.And"); o := *p; *p &= m; return o }
+func OrUint32(p *uint32, m uint32) uint32      { pt(p, "atomic.Or"); o := *p; *p |= m; return o }
+func AndInt64(p *int64, m int64) int64         { pt(p, "atomic.And"); o := *p; *p &= m; return o }
+func OrInt64(p *int64, m int64) int64          { pt(p, "atomic.Or"); o := *p; *p |= m; return o }
+func AndUint64(p *uint64, m uint64) uint64     { pt(p, "atomic.And"); o := *p; *p &= m; return o }
+func OrUint64(p *uint64, m uint64) uint64      { pt(p, "atomic.Or"); o := *p; *p |= m; return o }
+func AndUintptr(p *uintptr, m uintptr) uintptr { pt(p, "atomic.And"); o := *p; *p &= m; return o }
+func OrUintptr(p *uintptr, m uintptr) uintptr  { pt(p, "atomic.Or"); o := *p; *p |= m; return o }
+
+func (a *Int32) And(m int32) int32    { return AndInt32(&a.v, m) }
+func (a *Int32) Or(m int32) int32     { return OrInt32(&a.v, m) }
+func (a *Uint32) And(m uint32) uint32 { return AndUint32(&a.v, m) }
+func (a *Uint32) Or(m uint32) uint32  { return OrUint32(&a.v, m) }
+func (a *Int64) And(m int64) int64    { return AndInt64(&a.v, m) }
+func (a *Int64) Or(m int64) int64     { return OrInt64(&a.v, m) }
+func (a *Uint64) And(m uint64) uint64 { return AndUint64(&a.v, m) }
+func (a *Uint64) Or(m uint64) uint64  { return OrUint64(&a.v, m) }
